@@ -895,10 +895,17 @@ def rule_simulator(repo: Repo) -> List[Ob]:
         problems = []
         if not tests or not execs:
             problems.append("no condition test / branch execution found")
+
+        def held(t):
+            """the outcome label of test node t on which the evaluated condition HELD (`if not cond.evaluate(s): continue` tests the negation)"""
+            e, pos = t.ast, True
+            while isinstance(e, ast.UnaryOp) and isinstance(e.op, ast.Not):
+                e, pos = e.operand, not pos
+            return pos
         for b in execs:
             # the branch runs only if its condition held
-            ct = [t for t in tests if c.dominates(t, b) and any(x is b or c.reachable(x, b, avoid={t}) for x, lab in c.succ[t] if lab is True)
-                  and not any(x is b or c.reachable(x, b, avoid={t}) for x, lab in c.succ[t] if lab is False)]
+            ct = [t for t in tests if c.dominates(t, b) and any(x is b or c.reachable(x, b, avoid={t}) for x, lab in c.succ[t] if lab is held(t))
+                  and not any(x is b or c.reachable(x, b, avoid={t}) for x, lab in c.succ[t] if lab is (not held(t)))]
             if not ct:
                 problems.append("a branch can run although its condition was not tested true")
             # after a branch ran no further condition is tested and the else branch cannot run
@@ -909,7 +916,7 @@ def rule_simulator(repo: Repo) -> List[Ob]:
         for e in elses:
             for t in tests:
                 for x, lab in c.succ[t]:
-                    if lab is True and (x is e or c.reachable(x, e, avoid={t})) and not any(x is b or c.reachable(x, b, avoid={t}) for b in execs):
+                    if lab is held(t) and (x is e or c.reachable(x, e, avoid={t})) and not any(x is b or c.reachable(x, b, avoid={t}) for b in execs):
                         problems.append("the else branch is reachable from a true condition")
         if not elses:
             problems.append("else branch is never executed")
